@@ -82,6 +82,10 @@ def gen_case(rng, name, exact=False):
     n = int(rng.choice([8, 16, 50, 128, 255]))
     dt = float(rng.choice([0.01, 0.005, 1 / 75, 0.02, 0.1]))
     f = np.fft.rfftfreq(n, dt)
+    if f.size > 4 and rng.random() < 0.35:
+        # the operators are defined for any frequency axis, not only one that starts at 0 Hz: a band-limited spectrum whose first sample is a
+        # genuine spectral sample (it is excluded by its value only when it is the 0 Hz sample)
+        f = f[int(rng.integers(1, 4)):]
     nfc = int(rng.integers(1, 9))
     mode = rng.integers(0, 4)
     if mode == 0:
